@@ -29,7 +29,9 @@ OptShapes   == {"none", "ok", "ver1", "dup", "nonroot", "badrdlen", "extrcode"}
 CookieKinds == {"none", "c8", "valid", "stale", "badlen"}
 EcsKinds    == {"none", "v4_24", "v4_32", "v6_56", "fam0", "badfam"}
 Sizes       == {0, 512, 1232, 4096}
-ContentKinds == {"pos", "signed", "nx", "nodata", "ede", "big", "servfail", "upecs", "upcookie", "cname"}
+ContentKinds == {"pos", "signed", "nx", "nodata", "ede", "big", "servfail", "upecs", "upcookie", "cname",
+                 "hosts", "as112"}   \* answered ahead of the cache: hosts file entry, AS112 empty zone
+LocalContent == {"hosts", "as112"}
 
 PktType == [qr: BOOLEAN, opcode: {0, 2, 4}, qd: {0, 1, 2}, an: {0, 1}, rd: BOOLEAN,
             ad: BOOLEAN, cd: BOOLEAN, qtype: {"A", "RRSIG", "unknown"},
@@ -108,7 +110,7 @@ RLMsg(p, seesOpt) ==
 RLWire(p) == RLMsg(p, HasOpt(p))   \* serveWire reads the parsed cookie echo: same table
 
 (* ---- cache ladder (abstract): is the question answered from cache? --- *)
-Part(p) == IF p.cd THEN "cd" ELSE "nocd"
+Part(p) == <<p.qtype, IF p.cd THEN "cd" ELSE "nocd">>    \* the cache key: type and CD partition (one name per behaviour)
 ValidQ(p) == p.qtype # "unknown" /\ p.qclass = "IN"
 Cached(p) == cached[Part(p)]
 (* ECS-carrying and RD=0 requests never take the wire ladder; both fall to the Msg body,
@@ -150,7 +152,7 @@ RawCancel(p, rc, seesOpt, ecsLeft) ==
 
 BareHeader(rc) == [kind |-> "bare", rcode |-> rc]
 
-RcodeOf(c) == CASE c = "nx" -> "nxdomain" [] c = "servfail" -> "servfail" [] OTHER -> "noerror"
+RcodeOf(c) == CASE c \in {"nx", "as112"} -> "nxdomain" [] c = "servfail" -> "servfail" [] OTHER -> "noerror"
 
 R(o, rl, tail, store) == [o |-> o, spend |-> rl.spend, set |-> rl.set, tail |-> tail, store |-> store]
 Nothing == [spend |-> 0, set |-> FALSE]
@@ -162,7 +164,9 @@ Stores(c) == IF c \in {"servfail", "upecs"} THEN "" ELSE c
    ladder answers from bytes or from the Msg body, the body is the same *)
 Behind(p, c, ng, rl, sentEcs) ==
   LET ld == Ladder(p, sentEcs) IN
-  CASE ld = "cancel"      -> R(NoReply, rl, FALSE, "")
+  CASE c \in LocalContent /\ p.qclass = "IN" /\ p.qtype # "unknown"
+                          -> R(Reply(p, ng, RcodeOf(c), c, FALSE), rl, FALSE, "")   \* hostsfile / as112 answer before the cache
+    [] ld = "cancel"      -> R(NoReply, rl, FALSE, "")
     [] ld = "servfail-rd" -> R(Reply(p, ng, "servfail", "none", TRUE), rl, FALSE, "")
     [] ld = "hit"         -> R(Reply(p, ng, RcodeOf(Cached(p)), Cached(p), FALSE), rl, FALSE, "")
     [] OTHER              -> R(Reply(p, ng, RcodeOf(c), c, FALSE), rl, TRUE, Stores(c))
@@ -193,7 +197,7 @@ WirePass(p, c) ==
 Init ==
   /\ cfg \in Configs
   /\ content \in Contents
-  /\ cached = [x \in {"cd", "nocd"} |-> ""]
+  /\ cached = [x \in {"A", "RRSIG", "unknown"} \X {"cd", "nocd"} |-> ""]
   /\ scookie = "none"
   /\ tokens = 2
   /\ n = 0
